@@ -351,3 +351,45 @@ def orient(x):
     if isinstance(x, frozenset):
         return frozenset(orient(y) for y in x)
     return x
+
+
+def canon_int_conds(conds):
+    """[(term, label)] -> the same constraints with all tests of one integer term against literals (`x == 0` false then
+    `x == 1` true; `match x { 1 => .. }`) folded into a single ('in', values) / ('notin', values) label on that term, so an
+    if-chain and a `match` over the same values give the same condition set.  Other conditions are passed through."""
+    from ..mir import strip_all
+    by = {}
+    order = []
+    rest = []
+    for t, lab in conds:
+        x = strip_all(t)
+        key = None
+        if x and x[0] == "bin" and x[1] in ("Eq", "Ne") and lab[0] == "bool":
+            a, c = strip_all(x[2]), strip_all(x[3])
+            if a and a[0] == "c" and isinstance(a[2], int):
+                a, c = c, a
+            if c and c[0] == "c" and isinstance(c[2], int) and not (a and a[0] == "c"):
+                pos = (x[1] == "Eq") == bool(lab[1])
+                key, con = a, (("in", (c[2],)) if pos else ("notin", (c[2],)))
+        elif lab[0] in ("in", "notin") and all(isinstance(v, int) for v in lab[1]):
+            key, con = x, (lab[0], tuple(lab[1]))
+        if key is None:
+            rest.append((t, lab))
+            continue
+        if key not in by:
+            by[key] = []
+            order.append(key)
+        by[key].append(con)
+    out = list(rest)
+    for key in order:
+        ins = [set(v) for k, v in by[key] if k == "in"]
+        notin = set()
+        for k, v in by[key]:
+            if k == "notin":
+                notin |= set(v)
+        if ins:
+            s = set.intersection(*ins) - notin
+            out.append((key, ("in", tuple(sorted(s)))))
+        else:
+            out.append((key, ("notin", tuple(sorted(notin)))))
+    return out
